@@ -107,7 +107,7 @@ func NewReflWorld(u *Universe, lm ListMode, b Binding) (*World, error) {
 	sdl := u.SDL()
 	if b == BindGoDir || b == BindGoDirBare || b == BindGoDirFull {
 		prefix := map[Binding]string{BindGoDir: "refluni.", BindGoDirBare: "", BindGoDirFull: "verifharness/gq/refluni."}[b]
-		for _, tn := range []string{"A", "B", "C"} {
+		for _, tn := range []string{"A", "B", "C", "P"} {
 			dir := "@go(type: \"" + prefix + tn + "\")"
 			sdl = strings.Replace(sdl, "type "+tn+" ", "type "+tn+" "+dir+" ", 1)
 			sdl = strings.Replace(sdl, dir+" implements Named", "implements Named "+dir, 1)
@@ -122,7 +122,7 @@ func NewReflWorld(u *Universe, lm ListMode, b Binding) (*World, error) {
 			_ = w.Root.ResolveString(q, "", nil)
 		}
 		w.TakeCalls()
-		for _, tn := range []string{"A", "B", "C"} {
+		for _, tn := range []string{"A", "B", "C", "P"} {
 			if _, ok := u.Types[tn]; ok {
 				if err := w.Root.RegisterType(refluni.NewAlt(w, tn, ""), tn); err != nil {
 					return nil, err
@@ -131,7 +131,7 @@ func NewReflWorld(u *Universe, lm ListMode, b Binding) (*World, error) {
 		}
 	}
 	if b == BindRegister {
-		for _, tn := range []string{"A", "B", "C", "Query", "Mutation"} {
+		for _, tn := range []string{"A", "B", "C", "P", "Query", "Mutation"} {
 			if _, ok := u.Types[tn]; ok {
 				if err := w.Root.RegisterType(refluni.New(w, tn, ""), tn); err != nil {
 					return nil, err
@@ -305,9 +305,11 @@ func (w *World) resolveVia(via, id string, field *ggql.Field, args map[string]in
 	for k, a := range args {
 		am[k] = ArgToValue(a)
 	}
-	w.mu.Lock()
-	w.calls = append(w.calls, Call{Node: id, Field: field.Name, Args: am, Via: via})
-	w.mu.Unlock()
+	if !w.U.IsSilent(id) {
+		w.mu.Lock()
+		w.calls = append(w.calls, Call{Node: id, Field: field.Name, Args: am, Via: via})
+		w.mu.Unlock()
+	}
 	if w.panicAt != "" && w.panicAt == id+"."+field.Name {
 		panic("injected panic in the resolver of " + w.panicAt)
 	}
@@ -357,6 +359,14 @@ func (w *World) resolveVia(via, id string, field *ggql.Field, args map[string]in
 		return nil, es
 	}
 	out := w.toGo(v, 0)
+	if field.Name == "pv" { // the struct itself, not a pointer to it (reflection strategy)
+		switch p := out.(type) {
+		case *refluni.P:
+			return *p, nil
+		case *refluni.XP:
+			return *p, nil
+		}
+	}
 	if al, ok := out.(*anyList); ok {
 		al.origin = id + "." + field.Name
 	}
